@@ -132,6 +132,11 @@ def clone_field_complete(repo):
         for c in impls[0].children:
             if c.kind == "fn" and c.name in ("clone", "clone_from"):
                 body = sf.src[c.head_end:c.end]
+                # a clone_from that replaces the whole value by a clone of the source (`*self = source.clone()`,
+                # `Clone::clone(source)`, `source.clone_into(self)`) delegates to `clone`, whose own body is examined
+                if c.name == "clone_from" and re.search(r"\bsource\s*\.\s*clone\s*\(\s*\)|\bClone\s*::\s*clone\s*\(\s*source\s*\)|\bsource\s*\.\s*clone_into\s*\(", body):
+                    n += 1
+                    continue
                 for f in fields:
                     n += 1
                     if not re.search(r"\b" + f + r"\b", body):
